@@ -15,7 +15,7 @@
    evaluation of the expression inside ~unquote is the Section variable [ev]; New() allocating an object is
    modelled by relabelling the id with the Section variable [mk].
    The classic model is the code *after* fixes/C21-1.diff (leaf nodes copied with New(), DeclStmt that unwraps to a
-   GenDecl handled as a slice).  Go nil list elements are not represented: appending nil is Err.
+   GenDecl handled as a slice) and MakeQuote is the code after fixes/C21-3.diff (ast.Decl case).  Go nil list elements are not represented: appending nil is Err.
    Definitions only. *)
 From Coq Require Import List NArith ZArith Bool.
 From Verif Require Import Common.Rose.
@@ -110,6 +110,7 @@ Section Model.
         | _ => match tree_cat n with
                | CStmt => Ok (quote_form op (block_of [n]))
                | CExpr => Ok (quote_form op (block_of [expr_stmt n]))
+               | CDecl => Ok (quote_form op (block_of [Node fid TDeclStmt [] [Some n]]))   (* fixes/C21-3 *)
                | _ => Err
                end
         end
@@ -356,82 +357,91 @@ Section Model.
     end.
 
   (* ---------- fast/quasiquote.go  Comp.quasiquote ---------- *)
+  Definition rec_t := Z -> tree -> res (option tree * bool).
+
+  (* case AstWithSlice and the final general AstWithNode case (shared verbatim by the spec below);
+     rec = the recursive call c.quasiquote(form, depth, ...) *)
+  Definition qq_general (rec : rec_t) (depth : Z) (t : tree) : res (option tree * bool) :=
+    match t with
+    | Slice i s a kids =>
+        rs <- mapM (fun kid => rec depth (simplify1 kid)) kids ;;
+        out <- splice_all (slot_of_stag s) [] rs ;;
+        Ok (Some (Slice (mk i) s a out), false)
+    | Node i tg a kids =>
+        kids' <- mapMi (fun idx o =>
+                          match o with
+                          | None => Ok None
+                          | Some c =>
+                              r <- rec depth (simplify1 c) ;;
+                              match fst r with
+                              | None => Ok None
+                              | Some x => y <- coerce (slot_of tg idx) x ;; Ok (Some y)
+                              end
+                          end) 0%nat kids ;;
+        Ok (Some (Node (mk i) tg a kids'), false)
+    end.
+
+  (* which quote-like operator heads t, if any *)
+  Definition quote_head (t : tree) : option N :=
+    match t with
+    | Node _ _ _ _ => match unary_op t with Some op => if is_quote_op op then Some op else None | None => None end
+    | Slice _ _ _ _ => None
+    end.
+
+  (* the test guarding the deep-splice path *)
+  Definition deep_chain (op : N) (depth : Z) (t : tree) : option (list N * tree) :=
+    if is_unq op then
+      match unq_chain t with
+      | Some (ops, last) =>
+          let ud := Z.of_nat (length ops) in
+          if (1 <? ud) && (depth <=? ud) && N.eqb (last_op ops) UNQUOTE_SPLICE
+          then Some (ops, last) else None
+      | None => None
+      end
+    else None.
+
+  (* run-time part of the deep-splice path: re-wrap every element of the value in the outer unquotes *)
+  Definition deep_result (ws : list N) (v : option tree) : res (option tree * bool) :=
+    match v with
+    | None => Ok (Some (block_of []), true)
+    | Some (Slice _ _ _ xs) =>
+        items <- mapM (fun e => if is_node e then q <- nest ws e ;; to_stmt q else Err) xs ;;
+        Ok (Some (block_of items), true)
+    | Some _ => Err
+    end.
+
+  Definition requote (op : N) (x : option tree) : res (option tree * bool) :=
+    if N.eqb op UNQUOTE_SPLICE
+    then q <- quote_unquote_splice op x ;; Ok (Some q, false)
+    else q <- requote_node op x ;; Ok (Some q, false).
+
+  Definition fq_body (rec : rec_t) (depth : Z) (t : tree) : res (option tree * bool) :=
+    match quote_head t with
+    | None => qq_general rec depth t
+    | Some op =>
+        match deep_chain op depth t with
+        | Some (ops, last) =>
+            match qbody last with
+            | None => Err
+            | Some lb => v <- ev (simplify_node lb true) ;; deep_result (firstn (length ops - 1) ops) v
+            end
+        | None =>
+            match qbody t with
+            | None => Err
+            | Some b =>
+                let node := simplify_node b true in
+                let depth' := if N.eqb op QUASIQUOTE then depth + 1
+                              else if is_unq op then depth - 1 else depth in
+                if depth' <=? 0 then v <- ev node ;; Ok (v, N.eqb op UNQUOTE_SPLICE)
+                else r <- rec depth' node ;; requote op (fst r)
+            end
+        end
+    end.
+
   Fixpoint fq (fuel : nat) (depth : Z) (t : tree) : res (option tree * bool) :=
     match fuel with
     | O => OutOfFuel
-    | S f =>
-        let general :=
-          match t with
-          | Slice i s a kids =>
-              rs <- mapM (fun kid => fq f depth (simplify1 kid)) kids ;;
-              out <- splice_all (slot_of_stag s) [] rs ;;
-              Ok (Some (Slice (mk i) s a out), false)
-          | Node i tg a kids =>
-              kids' <- mapMi (fun idx o =>
-                                match o with
-                                | None => Ok None
-                                | Some c =>
-                                    r <- fq f depth (simplify1 c) ;;
-                                    match fst r with
-                                    | None => Ok None
-                                    | Some x => y <- coerce (slot_of tg idx) x ;; Ok (Some y)
-                                    end
-                                end) 0%nat kids ;;
-              Ok (Some (Node (mk i) tg a kids'), false)
-          end in
-        match t with
-        | Slice _ _ _ _ => general
-        | Node _ _ _ _ =>
-            match unary_op t with
-            | Some op =>
-                if is_quote_op op then
-                  let deep :=
-                    if is_unq op then
-                      match unq_chain t with
-                      | Some (ops, last) =>
-                          let ud := Z.of_nat (length ops) in
-                          if (1 <? ud) && (depth <=? ud) && N.eqb (last_op ops) UNQUOTE_SPLICE
-                          then Some (ops, last) else None
-                      | None => None
-                      end
-                    else None in
-                  match deep with
-                  | Some (ops, last) =>
-                      (* deep splice: evaluate the innermost body, re-wrap every element *)
-                      match qbody last with
-                      | None => Err
-                      | Some lb =>
-                          v <- ev (simplify_node lb true) ;;
-                          match v with
-                          | None => Ok (Some (block_of []), true)
-                          | Some (Slice _ _ _ xs) =>
-                              items <- mapM (fun e => if is_node e
-                                                      then q <- nest (firstn (length ops - 1) ops) e ;; to_stmt q
-                                                      else Err) xs ;;
-                              Ok (Some (block_of items), true)
-                          | Some _ => Err
-                          end
-                      end
-                  | None =>
-                      match qbody t with
-                      | None => Err
-                      | Some b =>
-                          let node := simplify_node b true in
-                          let depth' := if N.eqb op QUASIQUOTE then depth + 1
-                                        else if is_unq op then depth - 1 else depth in
-                          if depth' <=? 0 then
-                            v <- ev node ;; Ok (v, N.eqb op UNQUOTE_SPLICE)
-                          else
-                            r <- fq f depth' node ;;
-                            if N.eqb op UNQUOTE_SPLICE
-                            then q <- quote_unquote_splice op (fst r) ;; Ok (Some q, false)
-                            else q <- requote_node op (fst r) ;; Ok (Some q, false)
-                      end
-                  end
-                else general
-            | None => general
-            end
-        end
+    | S f => fq_body (fq f) depth t
     end.
 
   Definition fuel_for (t : tree) : nat := (2 * height t + 8)%nat.
@@ -593,64 +603,37 @@ Section Model.
      ,,@x yields one ,xi per element); ~quasiquote raises the depth, ~quote leaves it.  Elements are inserted
      with the Set/Append coercions of ast2; a distributed element is carried as an ExprStmt (it is an element
      of a statement block until it is appended to its final list). *)
+  (* distribution of an unquote operator over the result of its body *)
+  Definition distribute (op : N) (r : option tree * bool) : res (option tree * bool) :=
+    match r with
+    | (Some (Slice _ _ _ xs), true) =>
+        items <- mapM (fun e => if is_node e then q <- make_quote op (Some e) ;; to_stmt q else Err) xs ;;
+        Ok (Some (block_of items), true)
+    | (None, true) => Ok (Some (block_of []), true)
+    | (Some _, true) => Err
+    | (x, false) => requote op x
+    end.
+
+  Definition sq_body (rec : rec_t) (d : Z) (t : tree) : res (option tree * bool) :=
+    match quote_head t with
+    | None => qq_general rec d t
+    | Some op =>
+        match qbody t with
+        | None => Err
+        | Some b =>
+            let node := simplify_node b true in
+            if is_unq op then
+              if d <=? 1 then v <- ev node ;; Ok (v, N.eqb op UNQUOTE_SPLICE)
+              else r <- rec (d - 1) node ;; distribute op r
+            else
+              r <- rec (if N.eqb op QUASIQUOTE then d + 1 else d) node ;; requote op (fst r)
+        end
+    end.
+
   Fixpoint sq (fuel : nat) (d : Z) (t : tree) : res (option tree * bool) :=
     match fuel with
     | O => OutOfFuel
-    | S f =>
-        let general :=
-          match t with
-          | Slice i s a kids =>
-              rs <- mapM (fun kid => sq f d (simplify1 kid)) kids ;;
-              out <- splice_all (slot_of_stag s) [] rs ;;
-              Ok (Some (Slice (mk i) s a out), false)
-          | Node i tg a kids =>
-              kids' <- mapMi (fun idx o =>
-                                match o with
-                                | None => Ok None
-                                | Some c =>
-                                    r <- sq f d (simplify1 c) ;;
-                                    match fst r with
-                                    | None => Ok None
-                                    | Some x => y <- coerce (slot_of tg idx) x ;; Ok (Some y)
-                                    end
-                                end) 0%nat kids ;;
-              Ok (Some (Node (mk i) tg a kids'), false)
-          end in
-        match t with
-        | Slice _ _ _ _ => general
-        | Node _ _ _ _ =>
-            match unary_op t with
-            | Some op =>
-                if is_quote_op op then
-                  match qbody t with
-                  | None => Err
-                  | Some b =>
-                      let node := simplify_node b true in
-                      if is_unq op then
-                        if d <=? 1 then v <- ev node ;; Ok (v, N.eqb op UNQUOTE_SPLICE)
-                        else
-                          r <- sq f (d - 1) node ;;
-                          match r with
-                          | (Some (Slice _ _ _ xs), true) =>
-                              items <- mapM (fun e => if is_node e
-                                                      then q <- make_quote op (Some e) ;; to_stmt q
-                                                      else Err) xs ;;
-                              Ok (Some (block_of items), true)
-                          | (None, true) => Ok (Some (block_of []), true)
-                          | (Some _, true) => Err
-                          | (x, false) =>
-                              if N.eqb op UNQUOTE_SPLICE
-                              then q <- quote_unquote_splice op x ;; Ok (Some q, false)
-                              else q <- requote_node op x ;; Ok (Some q, false)
-                          end
-                      else
-                        r <- sq f (if N.eqb op QUASIQUOTE then d + 1 else d) node ;;
-                        q <- requote_node op (fst r) ;; Ok (Some q, false)
-                  end
-                else general
-            | None => general
-            end
-        end
+    | S f => sq_body (sq f) d t
     end.
 End Model.
 
